@@ -2,6 +2,9 @@
 from harness import caseutil
 from harness.families import ALL_FAMS
 from harness.treelib import TreeEnv, HDR, call_term, shape_term, walk_invariants
+from harness.props.c09 import call_raw
+from harness.props.c13 import Plain
+from harness.families import BOUNDS
 from harness.props.c01 import gen_history, height
 
 PROPS_FILE = "Props/C03.v"
@@ -22,6 +25,7 @@ def run(ctx):
     terms, meta = [], []
     heights = {}
     nsteps = 0
+    nrejected = 0
     for it in range(nhist):
         kind = rng.choice(["BTree", "TreeSet"])
         fn = rng.choice(ALL_FAMS)
@@ -32,10 +36,12 @@ def run(ctx):
         if mode == "none-int":
             calls = gen_history(rng, kind, u, len(calls), avoid0=True)
         use_subclass = rng.random() < 0.25
+        ctx.progress({"family": fn, "kind": kind, "mode": mode, "sizes": [ml, mi], "calls": calls, "subclass": use_subclass})
         for impl in ("C", "Py"):
             env = TreeEnv(fn, kind, impl, mode)
             shapes = []
             bad = None
+            skipped = False
             if use_subclass:
                 sub = type("Sub" + env.cls.__name__, (env.cls,), {"max_leaf_size": ml, "max_internal_size": mi})
                 ctxmgr = env.sized(env.cls.max_leaf_size, env.cls.max_internal_size)  # no-op
@@ -46,6 +52,24 @@ def run(ctx):
                 if not use_subclass:
                     t = env.new()
                 for i, c in enumerate(calls):
+                    # a write the family rejects (unusable key or value) is a public operation too: it must
+                    # leave the tree as it was -- the model's step for it is the identity
+                    if (i == 0 and rng.random() < 0.5) or rng.random() < 0.08:
+                        rej = rejected_write(rng, env, kind)
+                        if rej is not None:
+                            r = call_raw(t, kind, rej[0], rej[1], rej[2])
+                            if r[0] == "ok":
+                                skipped = True   # not rejected (C13's / C09's business): the model no longer applies
+                                break
+                            nrejected += 1
+                            c = ("rejected-" + rej[0], repr(rej[1])[:20], repr(rej[2])[:20])
+                            bad = verify(env, t, ml, mi, use_subclass)
+                            if bad:
+                                ctx.oracle_failure("%s:%s:%s:after-rejected-write" % (impl, kind, bad[0]),
+                                                   "%s%s/%s sizes=(%d,%d) after the REJECTED write %r (before call #%d, %d keys stored): %s" % (fn, kind, impl, ml, mi, c, i, len(t), bad[1]),
+                                                   {"family": fn, "kind": kind, "impl": impl, "mode": mode, "sizes": [ml, mi], "calls": calls[:i], "rejected": c})
+                                break
+                            c = calls[i]
                     env.call(t, c)
                     nsteps += 1
                     try:
@@ -66,7 +90,7 @@ def run(ctx):
                                            {"family": fn, "kind": kind, "impl": impl, "mode": mode, "sizes": [ml, mi], "subclass": use_subclass, "calls": calls[:i + 1]})
                         break
                     shapes.append(env.shape(t))
-            if bad is None:
+            if bad is None and not skipped:
                 vs = "true" if (impl == "C" and fn[1] in "IULQF" and kind == "BTree" and fn != "fs") else "false"
                 terms.append("TC3 %d %d %s %s [%s] [%s]" % (ml, mi, vs, "true" if impl == "C" else "false",
                                                            "; ".join(call_term(c) for c in calls), "; ".join(shape_term(s) for s in shapes)))
@@ -84,6 +108,54 @@ def run(ctx):
         ctx.corr_mismatch("RTree model shape/invariant vs implementation (per step)", {"case": meta[i]})
     ctx.cov["max_height_per_history"] = {str(k): v for k, v in sorted(heights.items())}
     ctx.cov["steps_checked_with__check_check_walker"] = nsteps
+    ctx.cov["rejected_writes_checked"] = nrejected
+
+
+def rejected_write(rng, env, kind):
+    """(name, key, value) of a write this family must reject, or None"""
+    f = env.f
+    setlike = kind in ("TreeSet", "Set")
+    goodk, goodv = env.k(rng.randrange(3, 6)), (None if setlike else env.v(1))
+    roles = ["key"] + ([] if setlike or f.vk == "O" else ["value"])
+    role = rng.choice(roles)
+    if role == "key":
+        if f.kk in BOUNDS:
+            a = rng.choice(["x", 2**70, None, 1.5])
+        elif f.kk == "O":
+            a = Plain()
+        else:
+            a = rng.choice([b"abc", "ab", 7])
+        b = goodv
+    else:
+        a = goodk
+        if f.vk in BOUNDS:
+            b = rng.choice(["x", 2**70, None])
+        elif f.vk == "F":
+            b = rng.choice(["x", None, (1,)])
+        else:
+            b = rng.choice([b"ab", "abcdef", 7])
+    name = rng.choice(["set", "set", "setdefault", "insert", "update"]) if not setlike else rng.choice(["set", "update"])
+    return name, a, b
+
+
+def verify(env, t, ml, mi, use_subclass):
+    import BTrees.check
+    bad = None
+    try:
+        t._check()
+    except AssertionError as e:
+        bad = ("_check-fails", str(e))
+    if not use_subclass:
+        try:
+            BTrees.check.check(t)
+        except AssertionError as e:
+            bad = bad or ("check()-fails", str(e)[:200])
+    inv = walk_invariants(env, t, ml, mi)
+    if inv:
+        bad = bad or ("walker:" + inv[0], str(inv))
+    if bad is None and (len(t) == 0) != (not t):
+        bad = ("bool-disagrees-with-len", "len=%d bool=%r" % (len(t), bool(t)))
+    return bad
 
 
 def replay(ctx, data):
